@@ -184,7 +184,7 @@ func init() {
 			/* never waits for the mutex itself: a goroutine that went away with it must show as
 			   a stuck interface, not hang the harness */
 			/* a loader may keep the mutex while a slow server answers: that ends with the timeout */
-			deadline := time.Now().Add(45 * time.Second)
+			deadline := time.Now().Add(75 * time.Second)
 			for {
 				if settled, _, free := s.VerifTrySettledHookHeld(); free && settled {
 					break
@@ -205,7 +205,7 @@ func init() {
 			go func() { pollers.Wait(); close(pollersDone) }()
 			select {
 			case <-pollersDone:
-			case <-time.After(45 * time.Second):
+			case <-time.After(75 * time.Second):
 				stuck = true
 			}
 		}
